@@ -4,7 +4,7 @@ from vlib import writerfam as wf
 from vlib.common import Broken
 
 LEVEL = "model_checking"
-VARIANTS = ["fresh", "dirtybuf", "reset_after_fail", "reset_after_use", "pooled", "release"]
+VARIANTS = ["fresh", "dirtybuf", "dirtycap", "reset_after_fail", "reset_after_use", "pooled", "release"]
 # contiguous buffers of exact capacities: only with the small-payload programs (the boundary programs write 64 KiB payloads)
 CAP_VARIANTS = ["cap:%d" % n for n in range(1, 25)] + ["cap:255", "cap:256", "cap:257", "cap:258"]
 
